@@ -5,6 +5,7 @@ CONSTANTS
   Inners = {"private", "noCopy", "delay", "headline", "groupchat", "fwdInside"}
   Gens = {"v1", "v2"}
   JidCfgs = {"plain", "mixed"}
+  Estabs = {"configured"}
   Hows = {}
   MaxHist = 99
 VIEW TourView
